@@ -14,35 +14,36 @@ namespace Dsw
 permutation of its argument. -/
 theorem C18_shape (k : Nat) (shuffle : Nat → List Int → List Int)
     (hs : ∀ i l, (shuffle i l).Perm l) :
-    (createRandomShuffles k shuffle).size = 4 ^ k ∧ Tbl.PermRows (createRandomShuffles k shuffle) := by
-  sorry
+    (createRandomShuffles k shuffle).size = 4 ^ k ∧ Tbl.PermRows (createRandomShuffles k shuffle) :=
+  ⟨createRandomShuffles_size k shuffle, createRandomShuffles_permRows k shuffle hs⟩
 
 /-- `argsort` always returns a permutation of the positions (stable sort of indices), so
 digit → position and position → digit are mutually inverse for ANY table row. -/
-theorem C18_argsort_perm (keys : List Int) : (argsort keys).Perm (List.range keys.length) := by
-  sorry
+theorem C18_argsort_perm (keys : List Int) : (argsort keys).Perm (List.range keys.length) :=
+  argsort_perm keys
 
 /-- for any table (or none), at every vertex the map digit ↦ live arc is a bijection from
 `{0 … deg-1}` onto the live arcs, with the decoder's `arcDigit` as inverse. -/
 theorem C18_bijection (a : Acc) (tbl : Option Tbl) (v : Int) :
     (∀ d, d < a.outDeg v → selectArc a tbl v d ∈ a.live v ∧ arcDigit a tbl v (selectArc a tbl v d) = d) ∧
-    (∀ j, j ∈ a.live v → arcDigit a tbl v j < a.outDeg v ∧ selectArc a tbl v (arcDigit a tbl v j) = j) := by
-  sorry
+    (∀ j, j ∈ a.live v → arcDigit a tbl v j < a.outDeg v ∧ selectArc a tbl v (arcDigit a tbl v j) = j) :=
+  ⟨fun _ hd => ⟨selectArc_mem a tbl v hd, arcDigit_selectArc a tbl v hd⟩,
+   fun _ hj => ⟨arcDigit_lt a tbl v hj, selectArc_arcDigit a tbl v hj⟩⟩
 
 /-- with distinct table entries on the live columns (every permutation row) the decoder's digit is
 the documented rank: the number of live arcs with a smaller table entry (smaller column without a
 table). -/
 theorem C18_digit_is_rank (a : Acc) (tbl : Option Tbl) (v : Int) (j : Nat) (hj : j ∈ a.live v)
-    (hd : DistinctKeys a tbl v) : arcDigit a tbl v j = arcRank a tbl v j := by
-  sorry
+    (hd : DistinctKeys a tbl v) : arcDigit a tbl v j = arcRank a tbl v j :=
+  arcDigit_eq_arcRank a tbl v hj hd
 
 /-- without a table the keys are always distinct; with a permutation table as well. -/
-theorem C18_distinct_none (a : Acc) (v : Int) : DistinctKeys a none v := by
-  sorry
+theorem C18_distinct_none (a : Acc) (v : Int) : DistinctKeys a none v :=
+  distinctKeys_none a v
 
 theorem C18_distinct_perm (a : Acc) (t : Tbl) (v : Nat) (hv : v < t.size) (ht : t.PermRows) :
-    DistinctKeys a (some t) v := by
-  sorry
+    DistinctKeys a (some t) v :=
+  distinctKeys_of_permRows a t v hv ht
 
 /-- the finite table behind the observation "all 24 permutations × 15 non-empty live patterns":
 for each of them digit ↦ arc is injective. (`decide +kernel` over the whole table, as a
